@@ -100,9 +100,10 @@ def telegram_handling_is_total(direction, request_known, responses, had_request)
 # the decoder class snoop really uses: IsoTpStateMachine with overridden error hooks
 from odxtools.isotp_state_machine import IsoTpActiveDecoder, IsoTpStateMachine  # noqa: E402
 from spec import isotp as S  # noqa: E402
+from contracts import isotp as IT  # noqa: E402
 
 
-@harness(props=["C13"], strength="P", family=lambda t, s: [{"state": st} for st in ("idle", "in-progress")],
+@harness(props=["C13", "C12"], strength="P", family=lambda t, s: [{"state": st} for st in ("idle", "in-progress")],
          functions=[snoop.init_verbose_state_machine, IsoTpStateMachine.decode_rx_frame],
          covers=["reported", "silent"], assumes=["A-bitstruct", "A-lib"], crosscheck=False)
 def verbose_decoder_never_raises(state):
@@ -125,8 +126,11 @@ def verbose_decoder_never_raises(state):
     new_cell, outputs, event = S.step(cell, data)
     H.cover("reported" if outputs else "silent")
     H.check("C13:never-raises", True)
-    H.check("C13:reports-what-the-step-specification-reports",
+    H.check("C12,C13:reports-what-the-step-specification-reports",
             H.And(len(out) == len(outputs), all([H.eq(o[1], so) for (o, so) in zip(out, outputs)])))
+    # the informative hooks only print: the reassembly state afterwards is the one the step specification prescribes
+    H.check("C12:cell-as-spec", IT._cell_eq(sm._telegram_data[0], sm._telegram_specified_len[0],
+                                             sm._telegram_last_rx_fragment_idx[0], new_cell))
 
 
 
@@ -154,6 +158,60 @@ def telegram_handling_over_a_real_layer_is_total(direction):
     H.set_global(snoop, "last_request", b"\x10\x01" if direction == "ecu" else None)
     try:
         snoop.handle_telegram(0x7E8 if direction == "ecu" else 0x7E0, payload)
+    except Exception:
+        H.check("C13:never-raises", False)
+        return
+    H.cover("handled")
+    H.check("C13:never-raises", True)
+
+
+# ... and over a real DiagLayer whose one service carries a real description of contracts/endtoend.py: everything
+# below handle_telegram - prefix tree, DiagService.decode_message, Request/Response.decode, the parameter, DOP and
+# diag-coded-type classes - is the library's
+from contracts import build as B  # noqa: E402
+from contracts import endtoend as E  # noqa: E402
+from odxtools.diagservice import DiagService  # noqa: E402
+from odxtools.request import Request  # noqa: E402
+
+REAL_CODINGS = ["sid+u8", "bitpos-spill", "table-key+struct", "multiplexer", "leading-length-bytes",
+                "minmax-hexff+const", "dtc", "length-key-uint"]
+
+
+def _real_family(tier, seed):
+    names = REAL_CODINGS if tier == "quick" else [d for d in E.DESCRIPTIONS if d not in E.DECODE_SKIP]
+    return [{"desc": d} for d in names]
+
+
+@harness(props=["C13"], strength="B", family=_real_family,
+         bound="telegram payload of 0..6 arbitrary bytes; the layer has one service whose request or positive response "
+         "is one of the concrete descriptions of contracts/endtoend.py (8 of them in the quick tier, all in the "
+         "thorough tier)",
+         functions=[snoop.handle_telegram, DiagLayer.decode, DiagLayer.decode_response, DiagLayer._find_services_for_uds,
+                    DiagService.decode_message] + E.FUNCTIONS,
+         covers=["handled"], assumes=["A-bitstruct", "A-lib"], crosscheck=False,
+         limits={"max_paths": 40000, "task_timeout": 1500, "sym_for_unroll": 12}, use_contracts=["bcd"])
+def telegram_handling_with_real_descriptions_is_total(desc):
+    """handle_telegram never raises for any telegram when request and response are real descriptions: a telegram the
+    description cannot decode (cut short, unknown key, ...) is reported as unrecognised"""
+    codec, specs, trigger = E.DESCRIPTIONS[desc]()
+    svc = DiagService.__new__(DiagService)
+    svc.short_name = "svc"
+    is_request = isinstance(codec, Request)
+    plain = B.request([B.coded_const("sid", 0x22, 0)])
+    svc._request = codec if is_request else plain
+    svc._positive_responses = [] if is_request else [codec]
+    svc._negative_responses = []
+    layer = DiagLayer.__new__(DiagLayer)
+    raw = AT.GhostRaw()
+    raw.services = [svc]
+    layer.diag_layer_raw = raw
+    payload = H.bytes("payload", 0, 6)
+    H.set_global(snoop, "odx_diag_layer", layer)
+    H.set_global(snoop, "ecu_rx_id", 0x7E0)
+    H.set_global(snoop, "ecu_tx_id", 0x7E8)
+    H.set_global(snoop, "last_request", None if is_request else b"\x22")
+    try:
+        snoop.handle_telegram(0x7E0 if is_request else 0x7E8, payload)
     except Exception:
         H.check("C13:never-raises", False)
         return
